@@ -145,6 +145,11 @@ class OpsMixin(object):
     if tag == 'bytes':
       return VBytes(Val.y(t))
     if tag == 'ref':
+      # a reference of unknown class: a builtin container when the path says so
+      for cname in ('dict', 'list', 'tuple', 'set'):
+        tid = vv.TYPE_IDS.get(cname)
+        if tid is not None and not self.feasible(st, st.classof(Val.r(t)) != -tid):
+          return VRef(cname, Val.r(t))
       return VRef(None, Val.r(t))
     if tag == 'type':
       tid = z3.simplify(Val.t(t))
